@@ -311,7 +311,7 @@ func satEnumerate(s *Shard, prop string, fn func(c *Case)) {
 	for _, g := range grids {
 		cids := critIDs(g.m)
 		specs := append(decLists(cids), genSpecs(false)...)
-		typeSets := [][]string{{"gain", "gain"}, {"gain", "cost"}}
+		typeSets := [][]string{{"gain", ""}, {"gain", "cost"}}
 		if g.m == 3 {
 			typeSets = [][]string{{"gain", "gain", "gain"}, {"cost", "gain", "cost"}}
 		}
